@@ -138,12 +138,14 @@ func convert2float64(i interface{}) (float64, error) {
 func (pw *prometheusWrapper) labelsToMap(labels []metrics.T) (ret map[string]string) {
 	ret = make(map[string]string)
 
+	// label values can carry bytes taken from requests (e.g. a watched key prefix), prometheus refuses
+	// values which are not valid utf-8 and With() panics in that case
 	for _, label := range pw.globalLabels {
-		ret[label.Name] = label.Value
+		ret[label.Name] = strings.ToValidUTF8(label.Value, "\uFFFD")
 	}
 
 	for _, label := range labels {
-		ret[label.Name] = label.Value
+		ret[label.Name] = strings.ToValidUTF8(label.Value, "\uFFFD")
 	}
 	return
 }
